@@ -450,6 +450,14 @@ func CondFacts(cond ssa.Value, pol bool) []Fact {
 				rec(v.X, !pol, depth+1)
 				return
 			}
+		case *ssa.Call:
+			// a small boolean helper (e.g. equalsPtr(x, y)): the facts that hold whenever it returns pol,
+			// with its parameters replaced by the call's arguments
+			if hf := helperFacts(v, pol, depth); hf != nil {
+				out = append(out, Fact{Bool: c, Truth: pol})
+				out = append(out, hf...)
+				return
+			}
 		case *ssa.Phi:
 			// boolean phi from && / ||: edges that are the constant !pol cannot be the source
 			var cands []ssa.Value
@@ -551,6 +559,8 @@ type Search struct {
 	// a branch on a flag whose value is known on the current path is followed
 	// only in the consistent direction.
 	TrackBools bool
+	// VisitEnv, when set, is called (besides visit) with the boolean flags known on the current path.
+	VisitEnv func(ins ssa.Instruction, via *ssa.BasicBlock, known func(ssa.Value) (bool, bool))
 }
 
 type boolEnv map[*ssa.Phi]bool
@@ -668,6 +678,15 @@ func (s Search) Reach(starts []Point, visit func(ins ssa.Instruction, via *ssa.B
 				break
 			}
 			visit(ins, it.via)
+			if s.VisitEnv != nil {
+				env := it.env
+				s.VisitEnv(ins, it.via, func(v ssa.Value) (bool, bool) {
+					if c, ok := ConstBool(v); ok {
+						return c, true
+					}
+					return env.decide(v)
+				})
+			}
 		}
 		if stopped {
 			continue
@@ -792,4 +811,58 @@ func Root(v ssa.Value) ssa.Value {
 		}
 	}
 	return v
+}
+
+// helperFacts returns the facts implied by "call returns pol" for a static callee with a body,
+// a single boolean result and at most 8 blocks, when exactly one return can produce pol.
+func helperFacts(call *ssa.Call, pol bool, depth int) []Fact {
+	if depth > 3 {
+		return nil
+	}
+	ci := Callee(call)
+	fn := ci.Static
+	if fn == nil || ci.Closure != nil || len(fn.Blocks) == 0 || len(fn.Blocks) > 8 || fn.Signature.Results().Len() != 1 {
+		return nil
+	}
+	if b, ok := fn.Signature.Results().At(0).Type().Underlying().(*types.Basic); !ok || b.Kind() != types.Bool {
+		return nil
+	}
+	var cand []Fact
+	n := 0
+	for _, r := range Returns(fn) {
+		v := r.Results[0]
+		if k, isConst := ConstBool(v); isConst {
+			if k != pol {
+				continue
+			}
+			n++
+			cand = BlockFacts(r.Block())
+			continue
+		}
+		n++
+		cand = append(BlockFacts(r.Block()), CondFacts(v, pol)...)
+	}
+	if n != 1 {
+		return nil
+	}
+	args := call.Call.Args
+	subst := func(v ssa.Value) ssa.Value {
+		if p, ok := v.(*ssa.Parameter); ok && p.Parent() == fn {
+			for i, q := range fn.Params {
+				if q == p && i < len(args) {
+					return Resolve(args[i])
+				}
+			}
+		}
+		return v
+	}
+	out := make([]Fact, 0, len(cand))
+	for _, f := range cand {
+		if f.Op == token.ILLEGAL {
+			out = append(out, Fact{Bool: subst(f.Bool), Truth: f.Truth})
+			continue
+		}
+		out = append(out, Fact{Op: f.Op, X: subst(f.X), Y: subst(f.Y)})
+	}
+	return out
 }
